@@ -240,24 +240,24 @@ def run(ctx):
     common_kw = {'major': '2', 'minor': '0', 'spi_i': 'self.spi_i', 'spi_r': 'self.spi_r',
                  'is_initiator': 'self.is_initiator', 'exchange_type': 'exchange_type',
                  'can_use_higher_version': 'False'}
+    from ..sval import strip_ids
     for name, kw in expect.items():
         fi = ctx.func('ikesa.IkeSa.' + name)
-        ctors = [n for n in walk_no_nested(fi.node) if isinstance(n, ast.Call)
-                 and res.resolve_call(n, fi, count=False).kind == 'ctor'
-                 and res.resolve_call(n, fi, count=False).cls.qual == 'message.Message']
-        ctx.require(len(ctors) == 1, 'anchor vanished: Message(...) construction in %s' % name)
-        b = bind_args(ctors[0], msg_init)
-        for k, v in list(kw.items()) + list(common_kw.items()):
-            ctx.check(k in b and src(b[k]) == v, 'M3', '%s stamps %s=%s' % (name, k, v),
-                      key=('M3', name, k), site=ctx.site(fi, ctors[0]),
-                      detail={'found': src(b[k]) if k in b else None})
+        F = ctx.sval(fi)
+        rets = [t for _, t, _ in F.returns]
+        ctx.require(len(rets) >= 1 and all(tq.is_call(t, 'new message.Message') for t in rets),
+                    'anchor vanished: %s returns a Message(...) it constructs' % name)
+        for t in rets:
+            b = tq.args(t)
+            for k, v in list(kw.items()) + list(common_kw.items()):
+                ctx.check(k in b and strip_ids(b[k]) == strip_ids(F.expr(v)), 'M3', '%s stamps %s=%s' % (name, k, v),
+                          key=('M3', name, k), site=ctx.site(fi, fi.node), detail={'found': tq.text(b[k], 200) if k in b else None})
     for prop, (a, b) in {'spi_i': ('my_spi', 'peer_spi'), 'spi_r': ('peer_spi', 'my_spi')}.items():
         fi = ctx.func('ikesa.IkeSa.' + prop)
-        rets = [n for n in walk_no_nested(fi.node) if isinstance(n, ast.Return)]
-        ok = len(rets) == 1 and isinstance(rets[0].value, ast.IfExp) and src(rets[0].value.test) == 'self.is_initiator' \
-            and src(rets[0].value.body) == 'self.' + a and src(rets[0].value.orelse) == 'self.' + b
+        F = ctx.sval(fi)
+        ok = strip_ids(F.ret()) == strip_ids(F.expr('self.%s if self.is_initiator else self.%s' % (a, b)))
         ctx.check(ok, 'M3', 'IkeSa.%s is %s for the initiator and %s for the responder' % (prop, a, b),
-                  key=('M3', 'property', prop), site=ctx.site(fi, fi.node))
+                  key=('M3', 'property', prop), site=ctx.site(fi, fi.node), detail={'returned': tq.text(F.ret(), 200)})
     reqt = common.handler_table(ctx, '_process_request')
     for ex, h in sorted(reqt.items()):
         calls = [x for x in walk_no_nested(h.node) if isinstance(x, ast.Call) and isinstance(x.func, ast.Attribute)
@@ -325,9 +325,11 @@ def run(ctx):
     # replay of queued triggers only when idle
     pe = [n for n in g2.nodes if n.kind == 'iter' and 'pending_events' in src(n.ast.iter)]
     ctx.floor('the replay loop over pending_events', len(pe), 1, rule='M4')
-    conds = [c for c in g2.nodes if c.kind == 'cond' and S.eval_cond(c.ast) is not None
-             and S.eval_cond(c.ast)[1] == frozenset(['ESTABLISHED'])]
-    ctx.check(any(common.dominated_by_edge(g2, n, c, 'T') for n in pe for c in conds), 'M4',
+    est = frozenset(['ESTABLISHED'])
+    conds = [(c, 'T' if S.eval_cond(c.ast)[1] == est else 'F') for c in g2.nodes if c.kind == 'cond' and S.eval_cond(c.ast) is not None
+             and (S.eval_cond(c.ast)[1] == est or S.all - S.eval_cond(c.ast)[1] == est)]
+    # (`if state == ESTABLISHED: replay` and `if state != ESTABLISHED: return` are the same guard)
+    ctx.check(bool(pe) and all(any(common.dominated_by_edge(g2, n, c, e) for c, e in conds) for n in pe), 'M4',
               'queued triggers are replayed only when the IKE_SA is ESTABLISHED (idle)', key=('M4', 'replay-guard'),
               site=ctx.site(presp, presp.node))
 
